@@ -6,6 +6,8 @@ spec/sync/GoSyncTrace.tla   trace validation of histories recorded from the real
 spec/sync/SemaImpl.tla      layer B: sema_llgo.go at lock/atomic granularity, model-checked against A
 binding 1: runtime/internal/lib/runtime/sema_llgo.go copied from the working tree, psync/latomic redirected to
            scheduler gates (atomics are scheduling points), driven through all interleavings; judged by A.
+spec/sync/AtomicSC.tla      layer A for sync/atomic: every operation one step on one memory; outcome sets of litmus programs
+spec/sync/AtomicTSO.tla     layer B: x86-TSO with llgo's instruction selection as switches (see vlib/c11litmus.py)
 binding 2: llgo-compiled programs exercising go statements, Mutex, RWMutex, WaitGroup, Once, Cond and atomics of
            every width with real pthreads; their printed invariants must equal what GoSync predicts.
 """
@@ -17,6 +19,7 @@ from . import common as C
 from . import sched
 from . import c10
 from . import progs
+from . import c11litmus
 
 SPEC = os.path.join(C.VERIF, "spec", "sync")
 
@@ -254,6 +257,8 @@ def check(chk):
     # ---- binding 2: compiled programs with real threads
     if os.environ.get("VERIF_NO_PROGS") != "1":
         progs.run_sync_programs(chk, thorough, sd)
+        # ---- binding 3: sync/atomic litmus programs judged by AtomicSC (one total order, indivisible operations)
+        c11litmus.run(chk, thorough, sd)
     chk.assumptions += ["semaphore/notify-list state is accessed only under its mutex or through atomics (gates are the only scheduling points)",
                         "Go's own sync package (Mutex, RWMutex, WaitGroup, Once, Cond) is correct given the semaphore and notify-list contracts",
                         "real-pthread runs of compiled programs explore only the schedules the OS happens to produce"]
